@@ -822,6 +822,34 @@ func genC09(r *Rng, tier string) []Case {
 		}
 	}
 
+	// ---- deep chains: question k is one label followed by a pointer to question k-1 (every pointer strictly backwards,
+	// every name within 255 octets as long as the depth stays below 127); decoding is linear in the depth
+	for _, depth := range []int{8, 24, 40, 64, 100, 126} {
+		m := &c09Msg{ID: uint16(depth), Flags: 0}
+		w := binary.BigEndian.AppendUint16(nil, m.ID)
+		w = binary.BigEndian.AppendUint16(w, 0)
+		w = binary.BigEndian.AppendUint16(w, uint16(depth))
+		w = append(w, 0, 0, 0, 0, 0, 0)
+		name := ""
+		prev := 0
+		for k := 0; k < depth; k++ {
+			at := len(w)
+			w = append(w, 1, 'a'+byte(k%26))
+			if k == 0 {
+				w = append(w, 0)
+				name = string(rune('a' + k%26))
+			} else {
+				w = append(w, 0xC0|byte(prev>>8), byte(prev))
+				name = string(rune('a'+k%26)) + "." + name
+			}
+			w = append(w, 0, 1, 0, 1)
+			prev = at
+			m.Q = append(m.Q, c09Q{name, 1, 1})
+		}
+		decmsg(w, m.canonical(), "ptr.deep-chain")
+		decname(w, prev, "ptr.deep-chain")
+	}
+
 	// ---- pointers that do not point strictly backwards, and other malformed input
 	rp := r.Fork("pointers")
 	put := func(w []byte, at, target int) []byte {
